@@ -115,7 +115,6 @@ type siteTable struct {
 	name map[ssa.Instruction]string
 }
 
-
 func calleeName(c *ssa.CallCommon) string {
 	if c.IsInvoke() {
 		return c.Method.Name()
@@ -217,6 +216,9 @@ func (e *Engine) siteOf(f *Frame, ins ssa.Instruction) string {
 
 func (x *Explorer) loopInvs(f *Frame, li *LoopInfo) []*Clause {
 	if f.contract == nil {
+		if f.borrowed != nil {
+			return f.borrowed[li.Header]
+		}
 		return nil
 	}
 	return f.contract.LoopInv[x.eng.contractLoopOrd(f, li)]
@@ -224,33 +226,127 @@ func (x *Explorer) loopInvs(f *Frame, li *LoopInfo) []*Clause {
 
 const unrollBound = 2
 
+// simpleLoop: cheap enough to unroll - no loop nested in it (directly or in a helper it calls) and
+// few branches in its body.
+func (x *Explorer) simpleLoop(fn *ssa.Function, li *LoopInfo) bool {
+	ifs := 0
+	for b := range li.Body {
+		if b != li.Header {
+			if inner := x.eng.loopAt(fn, b); inner != nil {
+				return false
+			}
+		}
+		for _, ins := range b.Instrs {
+			switch i := ins.(type) {
+			case *ssa.If:
+				ifs++
+			case *ssa.Select:
+				return false
+			case ssa.CallInstruction:
+				if callee := i.Common().StaticCallee(); callee != nil && callee.Blocks != nil && x.eng.inModule(callee) &&
+					x.eng.db.Contracts[x.eng.fnKey(callee)] == nil && len(x.eng.loopsOf(callee)) > 0 {
+					return false
+				}
+			}
+		}
+	}
+	return ifs <= 6
+}
+
+// borrowedInvs: invariants of the function under contract for a loop that it no longer has
+// itself, if they all bind in the scope of the helper frame f (whose loop li is being entered).
+func (x *Explorer) borrowedInvs(st *State, f *Frame, li *LoopInfo) []*Clause {
+	top := st.frames[0]
+	if top.contract == nil || x.eng.bindBase == nil {
+		return nil
+	}
+	if f.borrowed != nil {
+		if b, ok := f.borrowed[li.Header]; ok {
+			return b
+		}
+	}
+	remember := func(b []*Clause) []*Clause {
+		nb := make(map[*ssa.BasicBlock][]*Clause, len(f.borrowed)+1)
+		for k, v := range f.borrowed {
+			nb[k] = v
+		}
+		nb[li.Header] = b
+		f.borrowed = nb
+		return b
+	}
+	base := x.eng.bindBase[x.eng.fnKey(top.fn)]
+	if base == nil {
+		return remember(nil)
+	}
+	// contract loops without a partner among the function's current loops
+	matched := map[int]bool{}
+	for _, cl := range x.eng.loopsOf(top.fn) {
+		matched[x.eng.contractLoopOrd(top, cl)] = true
+	}
+	sig := x.eng.loopSignature(f.fn, li)
+	best, bestSim := 0, 0.0
+	for _, bl := range base.Loops {
+		if matched[bl.Ord] || len(top.contract.LoopInv[bl.Ord]) == 0 {
+			continue
+		}
+		if sim := loopSimilarity(sig, bl); sim > bestSim {
+			best, bestSim = bl.Ord, sim
+		}
+	}
+	if best == 0 || bestSim < minLoopSimilarity {
+		return remember(nil)
+	}
+	invs := top.contract.LoopInv[best]
+	env := x.specEnv(st, f, top.contract)
+	env.viewBases, env.viewHead = map[string]bool{}, st.ghosts
+	for _, cl := range invs {
+		env.goal = true
+		if g, _ := env.tryBool(cl.Expr); g == nil {
+			return remember(nil)
+		}
+	}
+	if !st.dry {
+		st.note(fmt.Sprintf("loop %d of %s is now loop %d of the helper %s: its invariants are read in the helper's scope", best, x.eng.fnKey(top.fn), li.Ord, x.eng.fnKey(f.fn)))
+	}
+	return remember(invs)
+}
+
 func (x *Explorer) atLoopHead(st *State, f *Frame, li *LoopInfo) {
 	if st.dead {
 		return
 	}
 	invs := x.loopInvs(f, li)
 	if f.contract == nil && len(invs) == 0 && x.eng.helperIsNew(f.fn) {
-		// A loop in a helper that did not exist when the contracts were written (typically a loop
-		// that was extracted from the function under contract, whose invariants described it in
-		// that function's terms). No invariant can be given for it from outside; it is unrolled
-		// a fixed number of times instead and the result for the function is labelled bounded.
-		if f.unroll == nil {
-			f.unroll = map[*ssa.BasicBlock]int{}
-		} else {
-			nu := make(map[*ssa.BasicBlock]int, len(f.unroll))
-			for k, v := range f.unroll {
-				nu[k] = v
+		// A loop in a helper that did not exist when the contracts were written - typically a
+		// loop that was extracted from the function under contract. A simple loop is unrolled a
+		// fixed number of times and the result for the function is labelled bounded. For a loop
+		// that is too expensive to unroll, the invariants the contract has for a loop that the
+		// function itself no longer has are read in the helper's scope (an extracted loop usually
+		// keeps its variable names) and used if every one of them binds there. Otherwise the loop
+		// is treated like any other loop without invariants.
+		if !x.simpleLoop(f.fn, li) {
+			if b := x.borrowedInvs(st, f, li); b != nil {
+				invs = b
 			}
-			f.unroll = nu
+		} else {
+			if f.unroll == nil {
+				f.unroll = map[*ssa.BasicBlock]int{}
+			} else {
+				nu := make(map[*ssa.BasicBlock]int, len(f.unroll))
+				for k, v := range f.unroll {
+					nu[k] = v
+				}
+				f.unroll = nu
+			}
+			f.unroll[li.Header]++
+			if !st.dry {
+				x.bounded[fmt.Sprintf("loop %d of %s (a helper the contracts do not know, explored inline) is unrolled %d times: obligations of the function under contract are decided for inputs that make it run at most %d times", li.Ord, x.eng.fnKey(f.fn), unrollBound, unrollBound)]++
+			}
+			if f.unroll[li.Header] > unrollBound+1 {
+				st.dead = true
+			}
+			return
 		}
-		f.unroll[li.Header]++
-		if !st.dry {
-			x.bounded[fmt.Sprintf("loop %d of %s (a helper the contracts do not know, explored inline) is unrolled %d times: obligations of the function under contract are decided for inputs that make it run at most %d times", li.Ord, x.eng.fnKey(f.fn), unrollBound, unrollBound)]++
-		}
-		if f.unroll[li.Header] > unrollBound+1 {
-			st.dead = true
-		}
-		return
 	}
 	site := fmt.Sprintf("loop#%d", x.eng.contractLoopOrd(f, li))
 	if f.name != "" {
@@ -291,7 +387,7 @@ func (x *Explorer) atLoopHead(st *State, f *Frame, li *LoopInfo) {
 			}
 		}
 		if !st.dry {
-			env := x.specEnv(st, f, f.contract)
+			env := x.specEnv(st, f, conOr(f, st))
 			env.iterHeap, env.iterCells = al.iterHeap, al.iterCells
 			for _, cl := range invs {
 				env.viewBases, env.viewHead = al.ghostW, al.headGhosts
@@ -347,7 +443,7 @@ func (x *Explorer) atLoopHead(st *State, f *Frame, li *LoopInfo) {
 		df := dry.top()
 		x.havocLoop(dry, df, li, W)
 		x.havocLoopGhosts(dry, ghostW, ghostSample)
-		denv := x.specEnv(dry, df, df.contract)
+		denv := x.specEnv(dry, df, conOr(df, dry))
 		x.assumeAtHead(dry, denv, invs, ghostW)
 		for k := range broken {
 			delete(broken, k)
@@ -399,7 +495,7 @@ func (x *Explorer) atLoopHead(st *State, f *Frame, li *LoopInfo) {
 		mods = x.contractMods(st, topF)
 	}
 	if !st.dry {
-		env := x.specEnv(st, f, f.contract)
+		env := x.specEnv(st, f, conOr(f, st))
 		for _, cl := range invs {
 			// on entry no iteration has run: the per-iteration view starts from the entry state
 			env.viewBases, env.viewHead = ghostW, st.ghosts
@@ -452,7 +548,7 @@ func (x *Explorer) atLoopHead(st *State, f *Frame, li *LoopInfo) {
 		}
 	}
 	x.havocLoopGhosts(st, ghostW, ghostSample)
-	env := x.specEnv(st, f, f.contract)
+	env := x.specEnv(st, f, conOr(f, st))
 	x.assumeAtHead(st, env, invs, ghostW)
 	al := &activeLoop{info: li, written: W, entryK: entryK, havocSym: havocSym, kept: havocSym, broken: broken, ghostW: ghostW, ghostSample: ghostSample, headGhosts: copyGhosts(st.ghosts)}
 	al.iterHeap = copyHeap(st.heap)
@@ -501,7 +597,6 @@ func freshAbove(cur, base *Term, k int64) bool {
 	}
 	return false
 }
-
 
 // ---- ghost state and loops -----------------------------------------------------------------
 //
@@ -747,4 +842,13 @@ func sortedKeysB(m map[string]bool) []string {
 	}
 	sort.Strings(r)
 	return r
+}
+
+// conOr: the contract whose scope (package, predicates) clauses are read in - the frame's own, or
+// for a helper frame the one of the function under contract.
+func conOr(f *Frame, st *State) *Contract {
+	if f.contract != nil {
+		return f.contract
+	}
+	return st.frames[0].contract
 }
